@@ -630,9 +630,11 @@ func TestVerifC07Small(t *testing.T) {
 			return 0
 		}
 		if !r.Thorough() {
-			// quick: one fault for every pair up to a union of 3 (all four one-way graphs have the same size for every
-			// larger union: 1 805 states / 5 250 transitions unsplit, measured), fault-free search for the unions of 4
-			if union <= 3 {
+			// quick: one fault for the two-way pairs and for the one-way pairs whose behind side holds the root only, up to a union
+			// of 3. The other one-way pairs (a longer shared prefix, one transaction missing) have, class by class, exactly the
+			// graph sizes of the |union| = 2 pair (measured) and get their fault search in thorough, like the unions of 4.
+			shared := p.A & p.B
+			if union <= 3 && (twoWay || shared == 1) {
 				return 1
 			}
 			return 0
@@ -815,7 +817,15 @@ func TestVerifC07Small(t *testing.T) {
 	r.Assume("time passes in steps of conversation validity + 1 s (all live conversations of both nodes expire together); the xorTreeRepair loop is not started (its counter is inert)")
 	r.Assume("honest peers: every in-flight message was produced by the real sender code of the other node; forged messages belong to C06/C15/C19")
 	myShard, _ := r.Shard()
-	for ji, j := range jobs {
+	// execution order within a worker: cheapest first, so that the broad fault-free jobs (every pair, every private variant)
+	// are done even when the wall budget cuts the expensive single-fault jobs on a loaded machine
+	exec := make([]int, len(jobs))
+	for i := range exec {
+		exec[i] = i
+	}
+	sort.SliceStable(exec, func(a, b int) bool { return jobs[exec[a]].cost < jobs[exec[b]].cost })
+	for _, ji := range exec {
+		j := jobs[ji]
 		if assign[ji] != myShard {
 			continue
 		}
